@@ -54,6 +54,12 @@ CLAIMED = {
  "C14": dict(engine="davwire", design="5 C14",
    technique="client outcome classification as TLA+ operator DavWire.ClientOutcomeOK; TLC enumerates (method, status, content type, body class, failure placement) cases; real clients driven with a scripted HTTPClient; observations judged by TLC",
    text="All 23 public client methods of the three packages x status codes (35 representative in quick, all of 100-599 in thorough) x 6 content types x 7 body classes (valid, empty, wrong root, truncated at a varying offset, garbage, HTML, DAV:error) plus per-response / per-propstat failure placements inside valid multi-status documents: error iff not 2xx / not 207 where required / body not interpretable / a failing response or propstat (a 404 response of sync-collection is a deletion; an optional property under 404 is absent, not an error); the error carries the status code and the DAV:error condition; no panic, no hang (10 s watchdog), no data with an error."),
+ "C15": dict(engine="xmlprims", design="5 C15",
+   technique="Namespaces-in-XML scoping as TLA+ operator Xml.Expand over lexical trees (laws: prefix-renaming invariance, token-stream balance and length, checked by TLC); TLC-enumerated lexical trees rendered, captured as RawXMLValue inside the repository's own package (go test -overlay), written out three ways and re-read by an independent reader; judged by TLC",
+   text="7 648 (thorough ~40k) well-formed lexical trees covering every kind of declaration (none, default, redeclaration, undeclaration, prefixes incl. rebinding and a second prefix) on root / child / grandchild, prefixed and unprefixed elements and attributes, text, CDATA, comments, mixed content: xml.Marshal of the raw value, TokenReader -> second raw value -> Marshal, and the value embedded in a typed DAV:prop must each re-read as Canon(Expand(lexical)); token stream finite, balanced, equal to the model's; typed decoding through the raw value equals direct decoding for 14 typed documents."),
+ "C16": dict(engine="xmlprims", design="5 C16",
+   technique="primitive domains and near-miss texts enumerated by TLC (Prims: character-class sequences, status codes, instants x zones); encode-then-decode executed on the real codec methods inside the repository's packages (go test -overlay; dateWithUTCTime in caldav); judged by TLC (back = val without error; refusal with error and no value)",
+   text="Depth and Overwrite exhaustively; status codes (all of 100-999 in thorough) x 5 reason-phrase classes; entity tags (through the header form and through XML) and href paths as every sequence of up to 2 (thorough 3) out of 15 character classes, each class concretised two ways; HTTP dates and iCalendar UTC date-times for 7 instants (epoch, leap day, year ends, year 1, 9999, sub-second) x 5 zone offsets to the second; 56 near-miss texts per grammar that must be refused. Class sequences are concretised by sampling; TLC decides the finite domains only."),
  "C17": dict(engine="davtree", design="5 C17",
    technique="leak bit recorded on every event of the DavTree universes, required FALSE by the TLC judge",
    text="Every response (headers and body) of every (tree, request) pair, body fault and conditional request is scanned for the absolute path of the sandbox (and its symlink-resolved form); the specification's responses carry no such datum, so any occurrence is a reject."),
@@ -103,6 +109,9 @@ m = {
   {"name": "davwire", "path": "spec/DavWire.tla spec/DavWireGen.tla spec/C14Judge.tla spec/C10Gen.tla spec/C10Judge.tla spec/C05Gen.tla spec/C05Judge.tla harness/cmd/clirec lib/checks_davwire.py lib/checks_c10.py lib/checks_c05.py",
    "serves_properties": ["C05", "C10", "C14"],
    "kind_free_text": "client-side relations in TLA+; TLC enumerates cases and judges observations of the real clients against backend doubles, scripted transports and independent-writer documents"},
+  {"name": "xmlprims", "path": "spec/Xml.tla spec/XmlGen.tla spec/XmlJudge.tla spec/Prims.tla spec/PrimsJudge.tla harness/overlay lib/checks_xml.py",
+   "serves_properties": ["C15", "C16"],
+   "kind_free_text": "namespace scoping and primitive grammars in TLA+; recorders injected into the repository's packages with go test -overlay; TLC judge"},
   {"name": "davtree", "path": "spec/DavTree.tla spec/DavTreeMC.tla spec/DavSim.tla spec/DavJudge.tla harness/cmd/davrec lib/checks_dav.py",
    "serves_properties": ["C01", "C02", "C03", "C04", "C17"],
    "kind_free_text": "TLA+ resource-tree specification; TLC model check + case generation; Go recorder on the real webdav.Handler; TLC trace-validation judge"},
